@@ -35,6 +35,10 @@ CLAIMED = {
    text='Decides for the quoting layer: every escape the EdgeQL string/bytes writers can emit is accepted by the Rust unquote functions with the same value (tables extracted from both sides, incl. numeric guards); the code points passed through raw do not meet the lexer-prohibited set (character-class algebra over the regexes and the Rust match arms); each quoting function neutralises its own delimiter, backslash first, and the dollar-quote marker search covers a boundary-straddling occurrence; identifier quoting consults the keyword tables; the code generators\' constant and identifier sinks call the quoting functions. PostgreSQL\'s full lexical rules and hand-rolled quoting inside SQL f-strings are not decided.',
    note=NOTE + ' Rust side read through a three-function arm extractor (fails closed if an arm group cannot be parsed).',
    technique='static analysis: writer/reader escape-table extraction and agreement (Python ast + Rust match-arm extractor), interval algebra on character classes, structural delimiter-discipline checks, sink provenance'),
+ 'C01': dict(
+   text='Decides writer/reader agreement between the EdgeQL printer and the grammar + lexer: every node class a reduction can construct has a visit_<Class> (exact-name dispatch) or is a listed inline component; every field a reduction can set to a non-constant value (keyword arguments, positional arguments, and self.val.<attr> stores resolved through the production symbols) is read by that visitor transitively through helpers and closures; literal brackets balance on every condition-consistent path of every visitor; literal alphabet agreement with the Rust lexer (shared with C18); keyword words exist in keywords.rs. Parenthesisation sufficiency, token fusion and byte-identity of the second print are not decided.',
+   note=NOTE + ' Field reads are attribute reads on the node parameter, inter-procedural to depth 5.',
+   technique='static analysis: registry exhaustiveness and inter-procedural field-coverage over the AST family (grammar side vs printer side), path-consistent bracket counting, keyword-table inclusion, character-class algebra'),
 }
 
 _PENDING = 'check not built yet in this round (design in DESIGN.md §3); will be claimed when its rules are armed'
